@@ -19,7 +19,6 @@ RULE = ('constructor events with n_word and/or n_frac unspecified (default confi
 DECIDING_OPS = ['__init__']
 ANCHORS = ['objects.Fxp.set_best_sizes', 'objects.Fxp._init_size']
 SHARDS = {'quick': 16, 'thorough': 16}
-MAXW = 64
 
 
 def int_bits(values, signed):
@@ -46,6 +45,15 @@ def boundary_class(values):
     return tuple(sorted(cls)) or ('generic',)
 
 
+def G_flat(c):
+    for x in c:
+        if isinstance(x, (list, tuple)):
+            for y in G_flat(x):
+                yield y
+        else:
+            yield x
+
+
 def make_judges(ctx):
     mon = ctx.mon
     Fxp = mon.Fxp
@@ -57,6 +65,10 @@ def make_judges(ctx):
         if d.get('like') is not None or d.get('dtype') is not None or getattr(Fxp, 'template', None) is not None:
             return
         extra = set(d) - {'val', 'signed', 'n_word', 'n_frac', 'n_int', 'like', 'dtype'}
+        MAXW = 64
+        if extra == {'n_word_max'} and isinstance(d['n_word_max'], int) and 8 <= d['n_word_max'] <= 64:
+            MAXW = d['n_word_max']          # "the configured maximum": the same statement with another cap
+            extra = set()
         if extra:
             ctx.skip('infer:non-default configuration or raw/scaled construction')
             return
@@ -98,7 +110,7 @@ def make_judges(ctx):
             return
         rank = 'scalar' if shape == () else 'array'
         if post.n_word > MAXW:
-            ctx.violation('cap', 'inferred word %d exceeds the configured maximum 64' % post.n_word, ev)
+            ctx.violation('cap', 'inferred word %d exceeds the configured maximum %d' % (post.n_word, MAXW), ev)
             return
         if not in_dom:
             # capped / non-dyadic case: quantization error below one LSB and flagged inexact iff inexact
@@ -122,11 +134,30 @@ def make_judges(ctx):
             if bool(post.status.get('inaccuracy')) != inexact:
                 ctx.violation('capped_flag', 'Fxp(%s) -> %s: inaccuracy flag %s but stored value %s the input' % (
                     [float(v) for v in vals[:3]], R.dtype_fxp(*post.fmt()), post.status.get('inaccuracy'), 'differs from' if inexact else 'equals'), ev)
-            ctx.judged((sg_arg, given, rank, 'non-dyadic', post.n_word == MAXW), True, None, elements=len(vals))
+            ctx.judged((sg_arg, given, rank, 'non-dyadic', post.n_word == MAXW, MAXW), True, None, elements=len(vals))
             ctx.floor_hit(('capped', inexact))
+            if MAXW != 64:
+                ctx.floor_hit(('capped_configured_maximum', inexact))
             return
         # ---- dyadic domain: exact model
         nf_exact = max(R.frac_bits_needed(v) for v in vals)
+        if MAXW != 64 and (given or int_bits(vals, signed) + s > MAXW):
+            ctx.skip('infer:configured maximum with a given size, or an integer part that does not fit the configured maximum')
+            return
+        if not given and nf_exact + int_bits(vals, signed) + s > MAXW:
+            # the exact format is beyond the configured maximum: word <= maximum (checked above), error below one LSB, flagged inexact (the statement
+            # does not fix the fraction length of the capped format)
+            lsb = R.lsb(post.n_frac)
+            got = [k * lsb for k in post.codes]
+            inexact = got != vals
+            if any(abs(g - v) >= lsb for g, v in zip(got, vals)):
+                ctx.violation('capped_error', 'inferred %s and stored %s for inputs %s: error >= 1 LSB' % (R.dtype_fxp(*post.fmt()), [str(g) for g in got[:4]], [str(v) for v in vals[:4]]), ev)
+            elif bool(post.status.get('inaccuracy')) != inexact or post.status.get('overflow') or post.status.get('underflow'):
+                ctx.violation('capped_flag', 'capped inference %s of %s: flags %r, stored value %s the input' % (R.dtype_fxp(*post.fmt()), [str(v) for v in vals[:4]], post.status, 'differs from' if inexact else 'equals'), ev)
+            ctx.judged((sg_arg, given, rank, 'dyadic-capped', post.n_word == MAXW, MAXW), True, None, elements=len(vals))
+            if MAXW != 64:
+                ctx.floor_hit(('capped_configured_maximum', inexact))
+            return
         if arithmetic:
             e_word, e_frac = n_word, n_frac
         elif n_word is None and n_frac is None:
@@ -169,14 +200,19 @@ def make_judges(ctx):
         sample = None
         if ctx.want_sample() and nontriv:
             sample = {'inputs': [str(v) for v in vals[:4]], 'signed_arg': sg_arg, 'given': {k: d.get(k) for k in given}, 'inferred': R.dtype_fxp(*post.fmt())}
-        ctx.judged((sg_arg, given, rank, bc, False), nontriv, sample, elements=len(vals))
+        kinds = set(type(x).__name__ for x in G_flat(val)) if isinstance(val, (list, tuple)) else set()
+        mixed = 'int' in kinds and 'float' in kinds
+        ctx.judged((sg_arg, given, rank, bc, False, MAXW, mixed), nontriv, sample, elements=len(vals))
         ctx.floor_hit(('given', given, sg_arg))
+        if mixed and e_frac > 0:
+            ctx.floor_hit(('mixed_int_float_container', type(val).__name__))
     return [infer_judge]
 
 
 def floors(tier):
     gs = [(), ('n_word',), ('n_frac',), ('n_frac', 'n_int'), ('n_word', 'n_int')]
-    return [('given', g, sa) for g in gs for sa in (None, True, False)] + [('capped', True), ('capped', False)]
+    return [('given', g, sa) for g in gs for sa in (None, True, False)] + [('capped', True), ('capped', False), ('capped_configured_maximum', True),
+                                                                         ('mixed_int_float_container', 'list'), ('mixed_int_float_container', 'tuple')]
 
 
 # ------------------------------------------------------------------------------------------ workload
@@ -271,6 +307,20 @@ def run_case(case, ctx):
             _try(lambda: Fxp(alt, n_frac=nfe + rng.randint(0, 5), **kw))
             _try(lambda: Fxp(alt, n_frac=rng.randint(8, 24), **kw))
             _try(lambda: Fxp(alt, n_word=nfe + ib + s + rng.randint(0, 3), **kw))
+        # containers mixing python integers with floats (list, tuple, nested): the integers must not decide the fraction length
+        iv = F(rng.randint(0, 9) if nonneg else rng.randint(-9, 9))
+        fv = F(rng.randint(0, 2 ** 6) * 2 + 1, 2 ** rng.randint(1, 12))
+        mvals = [iv, fv] + [v for v in vals[:2]]
+        if rng.random() < 0.5:
+            rng.shuffle(mvals)
+        mlist = [int(v) if v.denominator == 1 else float(v) for v in mvals]
+        _try(lambda: Fxp(list(mlist), **kw))
+        _try(lambda: Fxp(tuple(mlist), **kw))
+        _try(lambda: Fxp([list(mlist), list(reversed(mlist))], **kw))
+        _try(lambda: Fxp(list(mlist), n_word=rng.randint(20, 60), **kw))
+        # another configured maximum
+        nwm = rng.choice([16, 24, 32, 48])
+        _try(lambda: Fxp(val, n_word_max=nwm, **kw))
         # integers whose code at the given fraction length needs 63 / 64 / 65 bits
         if form == 0 and vals[0].denominator == 1 and vals[0] != 0:
             bl = abs(int(vals[0])).bit_length()
@@ -300,6 +350,10 @@ def run_case(case, ctx):
     kw = {} if sg is None else {'signed': sg}
     _try(lambda: Fxp(v, **kw))
     _try(lambda: Fxp([v, v / 7.0], **kw))
+    nwm = rng.choice([12, 16, 24, 32, 48])
+    if abs(v) < 2.0 ** (nwm - 2):
+        _try(lambda: Fxp(v, n_word_max=nwm, **kw))
+        _try(lambda: Fxp(np.array([v, v / 7.0]), n_word_max=nwm, **kw))
     # arrays mixing large and tiny magnitudes: the cap must take fraction bits away, not integer bits
     big = abs(v) * 2.0 ** rng.randint(5, 35) + rng.randint(1, 1000)
     if big < 2.0 ** 39:
